@@ -49,6 +49,7 @@ fn main() {
         "C10" => props::c10::run(&ctx),
         "C12" => props::c12::run(&ctx),
         "C13" => props::c13::run(&ctx),
+        "C16" => props::c16::run(&ctx),
         "C19" => props::c19::run(&ctx),
         _ => {
             eprintln!("vcheck: no in-process engine for {}", prop);
